@@ -55,7 +55,10 @@ def enclosure_cases(ctx, atm):
                       "meta": meta or {"fn": fn, "args": [float(a) for a in args], "value": v}})
     for x in xs:
         for fn in ("vmr2mixing_ratio", "vmr2specific_humidity", "specific_humidity2mixing_ratio", "specific_humidity2vmr"):
-            add(fn, f"{fn} {encl.rlit(x)}", [x], getattr(atm, fn)(x), CONV)
+            # conditioning: the converters contain 1 - x, whose float evaluation carries a relative error of
+            # eps / (1 - x); the enclosure tolerance follows it (1e-11 away from x = 1)
+            add(fn, f"{fn} {encl.rlit(x)}", [x], getattr(atm, fn)(x), CONV,
+                rtol=max(1e-11, 16 * np.finfo(float).eps / max(1 - x, 1e-300)))
     for w in ws:
         for fn in ("mixing_ratio2vmr", "mixing_ratio2specific_humidity"):
             add(fn, f"{fn} {encl.rlit(w)}", [w], getattr(atm, fn)(w), CONV)
